@@ -29,7 +29,7 @@ type FaultCase struct {
 	Fixed *world.Fault `json:"fixed,omitempty"` // explicit fault (replays, known findings) instead of Pick
 }
 
-var c11Kinds = []string{"create", "create", "remove", "dissociate", "realloc", "realloc", "replace", "replace", "addnode", "removenode", "setnode"}
+var c11Kinds = []string{"create", "create", "remove", "dissociate", "realloc", "realloc", "replace", "replace", "addnode", "removenode", "setnode", "setnode"}
 
 func genPrep(t *rapid.T, s Setup) []Op {
 	n := rapid.IntRange(1, 4).Draw(t, "nPrep")
@@ -222,7 +222,9 @@ func runC11(x *vt.Ctx, c FaultCase) *vt.Finding {
 	}
 	defer w.Close()
 	for _, op := range c.Prep {
-		runOp(w, op)
+		if out := runOp(w, op); !out.Closed {
+			return vt.Failf("op="+op.Kind+":stream-not-closed fault=nofault", "fault-free %s of the prefix: result stream did not close: %s", op.Kind, jsonStr(op))
+		}
 		settle(w)
 	}
 	w.IC.Disable(true)
@@ -268,7 +270,7 @@ func runC11(x *vt.Ctx, c FaultCase) *vt.Finding {
 		return nil
 	}
 	positions := []int{int(c.Pick % uint32(len(steps)))}
-	if c.All {
+	if c.All || len(steps) <= 10 { // short operations are enumerated completely, also in the quick tier
 		positions = positions[:0]
 		for i := range steps {
 			positions = append(positions, i)
@@ -329,7 +331,7 @@ func runC11(x *vt.Ctx, c FaultCase) *vt.Finding {
 	return nil
 }
 
-var propC11 = vt.Prop[FaultCase]{ID: "C11", Test: "TestC11", Gen: genC11, Run: runC11}
+var propC11 = vt.Prop[FaultCase]{ID: "C11", Test: "TestC11", Gen: genC11, Run: runC11, Retry: timeoutFinding}
 
 func TestC11(t *testing.T) { topT = t; propC11.Check(t) }
 
